@@ -583,7 +583,8 @@ func (g *gen) stmtSwitch(d int) {
 // ---------------------------------------------------------------- loops
 
 func (g *gen) loopBody(d int, label string, pre func()) {
-	g.fc.ctl = append(g.fc.ctl, ctl{kind: cxLoop, label: label})
+	g.fc.ctl = append(g.fc.ctl, ctl{kind: cxLoop, label: label, isRange: g.rangeNext})
+	g.rangeNext = false
 	g.ind++
 	g.push(false)
 	if pre != nil {
@@ -764,6 +765,7 @@ func (g *gen) stmtLoop(d int) {
 		if len(str) > 0 {
 			g.mult *= len(str)
 		}
+		g.rangeNext = true
 		g.loopBody(d, label, func() {
 			g.declare(&vr{name: i, t: scalars[kInt], ro: true, min: 0, max: int64(len(str)), bnd: true})
 			g.declare(&vr{name: ch, t: scalars[kInt32], ro: true})
@@ -786,11 +788,7 @@ func (g *gen) rangeSlice(d int, label string, emitLabel, inner func()) {
 		sv.used = true
 		src, et = sv.name, sv.t.elem
 		size = sv.minLen + 3
-		if sv.minLen >= 2 && g.chance(20) {
-			g.feat("slice-expr")
-			src = sprintf("%s[%d:%d]", sv.name, 0+g.pick(2), sv.minLen)
-			sv = nil
-		}
+		// (slice expressions a[lo:hi] are not part of the documented language and are not generated)
 	} else {
 		et = g.scalarType()
 		size = g.pick(4)
@@ -818,6 +816,7 @@ func (g *gen) rangeSlice(d int, label string, emitLabel, inner func()) {
 		wasRo = sv.ro
 		sv.ro = true
 	}
+	g.rangeNext = true
 	g.loopBody(d, label, func() {
 		if form != 1 {
 			g.declare(&vr{name: i, t: scalars[kInt], ro: true, idxFor: sv, min: 0, max: -1, bnd: true})
@@ -895,13 +894,16 @@ func (g *gen) stmtJump() {
 }
 
 func (g *gen) stmtEarlyReturn() {
-	loops := 0
+	loops, inRange := 0, false
 	for _, c := range g.fc.ctl {
 		if c.kind == cxLoop {
 			loops++
+			if c.isRange {
+				inRange = true
+			}
 		}
 	}
-	if loops >= 2 && g.avoided("return:in-nested-loop") {
+	if loops >= 2 && g.avoided("return:in-nested-loop") || inRange && g.avoided("return:in-range-loop") {
 		g.stmtPrint()
 		return
 	}
